@@ -9,7 +9,9 @@ import (
 	"encoding/binary"
 	"fmt"
 	"io"
+	"net/http"
 	"net/url"
+	"os"
 	"strings"
 	"time"
 
@@ -312,3 +314,56 @@ func ErrClass(err error) string {
 
 // Equal compares byte slices.
 func Equal(a, b []byte) bool { return bytes.Equal(a, b) }
+
+// ---------- IdP under test ----------
+
+// SPRegistry is a map-backed ServiceProviderProvider.
+type SPRegistry map[string]*saml.EntityDescriptor
+
+// GetServiceProvider implements saml.ServiceProviderProvider.
+func (r SPRegistry) GetServiceProvider(_ *http.Request, id string) (*saml.EntityDescriptor, error) {
+	if md, ok := r[id]; ok {
+		return md, nil
+	}
+	return nil, os.ErrNotExist
+}
+
+// FixedSession is a SessionProvider that always returns S (nil: writes a 401 and returns nil).
+type FixedSession struct{ S *saml.Session }
+
+// GetSession implements saml.SessionProvider.
+func (f FixedSession) GetSession(w http.ResponseWriter, _ *http.Request, _ *saml.IdpAuthnRequest) *saml.Session {
+	if f.S == nil {
+		http.Error(w, "no session", http.StatusUnauthorized)
+		return nil
+	}
+	return f.S
+}
+
+// NullLogger discards.
+type NullLogger struct{}
+
+func (NullLogger) Printf(string, ...interface{}) {}
+func (NullLogger) Print(...interface{})          {}
+func (NullLogger) Println(...interface{})        {}
+func (NullLogger) Fatal(...interface{})          {}
+func (NullLogger) Fatalf(string, ...interface{}) {}
+func (NullLogger) Fatalln(...interface{})        {}
+func (NullLogger) Panic(...interface{})          {}
+func (NullLogger) Panicf(string, ...interface{}) {}
+func (NullLogger) Panicln(...interface{})        {}
+
+// NewIDP builds the IdP under test with key fixture kn.
+func NewIDP(kn string, reg SPRegistry, sess *saml.Session) *saml.IdentityProvider {
+	kp := samlgen.Key(kn)
+	return &saml.IdentityProvider{
+		Key:                     kp.Key,
+		Certificate:             kp.Cert,
+		Logger:                  NullLogger{},
+		MetadataURL:             MustURL(samlgen.IDPEntity),
+		SSOURL:                  MustURL(samlgen.IDPSSO),
+		LogoutURL:               MustURL(samlgen.IDPSLO),
+		ServiceProviderProvider: reg,
+		SessionProvider:         FixedSession{S: sess},
+	}
+}
